@@ -2,6 +2,7 @@
 // INTERFERENCE prelude (every map call is one atomic step; the map is arbitrary between steps) - C03.
 #![allow(unused_imports, dead_code, unused_variables, unused_mut, unused_assignments, non_snake_case, non_upper_case_globals)]
 use vstd::prelude::*;
+use vstd::string::*;
 verus! {
 
 //@include prelude_std.rs
@@ -53,6 +54,8 @@ pub trait Cache: CacheImplDetails {
 //@endfn
 }
 
+//@consts memory_store/store.rs | -
+//@consts cache/cache.rs | -
 //@fields memory_store/store.rs | struct MemoryStore | memory,timer,cas_id
 pub struct MemoryStore {
     pub memory: Storage,
